@@ -168,7 +168,7 @@ theorem Step.appShutdown (e : EP) (h : Nat) : Step e (appShutdown e h).1 := by
   split
   · exact Step.refl e
   · split
-    · exact Step.refl e
+    · exact Step.modObj e _ _ (fun o hl => hl)
     · refine (Step.enqFrame _ _).after (Step.modObj e _ _ ?_)
       intro o hl
       unfold Obj.live at hl ⊢
